@@ -983,6 +983,12 @@ func (m *MutableOverlayWorld) MergeInto(other MutableWorld) error {
 
 func (m *MutableOverlayWorld) Snapshot() b6.World {
 	copy := *m
+	// Features returned from the snapshot's search index need to resolve
+	// references (eg the points of a path) via the snapshot, rather than
+	// the live world.
+	index := *m.index
+	index.features = &copy
+	copy.index = &index
 	m.base = &copy
 	m.features = NewFeaturesByID()
 	m.references = NewFeatureReferences()
